@@ -13,20 +13,36 @@ from fractions import Fraction
 from .common import Ctx, Driver, tok
 
 MANIFEST = dict(
-    text=("Lean theorems over the code-mirror of nonwhitespace_re.findall / _replace_cdata_list_attribute_values / "
-          "HTMLAttributeDict+XMLAttributeDict.__setitem__ / Tag.__init__ / handle_starttag: split_tokens + every_string_decomposes "
-          "(the tokens are the maximal whitespace-free runs, for every string, over the generated \\s class), split_join_stable, "
-          "multi_valued_iff_table + kernel-decided presence of the documented entries in the generated table, replace_refines_spec, "
-          "custom_map_exact, others_verbatim, none_disables, html_coercion / xml_coercion (total, incl. 0, 0.0, negatives, digit-limit "
-          "ValueError), containers_hold_no_numbers (invariant over all assignment sequences), dup_policy_replace/ignore/callable, "
-          "parsed_start_tag (end to end). Tie: differential runs of the real bs4 against the compiled model and a direct Python oracle "
-          "over whitespace patterns from the full isspace set, the element x attribute grid around the table (case variants, custom "
-          "maps, None), the value-type grid through both containers / Tag.__setitem__ / new_tag / builder-less tags / copies, and "
-          "generated start tags with 2-4 repeated attributes under every on_duplicate_attribute setting and builder option."),
+    text=("Lean theorems (69, all proved, axioms audited) over a code-mirror of nonwhitespace_re.findall, TreeBuilder option handling and "
+          "_replace_cdata_list_attribute_values, HTMLAttributeDict/XMLAttributeDict.__setitem__, the attribute part of Tag.__init__, "
+          "new_tag, copy_self, handle_starttag's duplicate handling, Tag.get/get_attribute_list/has_attr/__delitem__, and the attribute "
+          "part of _format_tag with Formatter.attributes and quoted_attribute_value. Splitting: split_tokens + every_string_decomposes "
+          "(tokens = maximal whitespace-free runs, every string, generated \\s class), split_is_regex_findall (scanner = the regex "
+          "engine's reading), written_back_and_reread (join/split for every list), split_join_stable. Table: multi_valued_iff_table, "
+          "default_table_every_entry_honoured + multi_valued_only_through_an_entry (the whole generated table, any spelling of the "
+          "element name; str.lower from a generated per-code-point table, = ASCII lowering on ASCII), prefixed_attributes_never_split, "
+          "base_table_splits_nothing (XML-flavoured builders), replace_refines_spec(_any_class), custom_map_exact, others_verbatim, "
+          "none_disables, builder_options_meaning. Containers: html_coercion / xml_coercion (total over the value ADT incl. 0, 0.0, "
+          "negatives, digit-limit ValueError), containers_hold_no_numbers (all assignment sequences). Duplicates: dup_policy_replace/"
+          "ignore/callable over all attribute lists, parsed_start_tag(_ignore/_accumulate/_any_policy/_none) end to end for every "
+          "dictionary/list class, policy_irrelevant_without_repeats, bad_policy_string_fails_iff_repeat. Histories: "
+          "mutate_leaves_others_unchanged, del_leaves_others_unchanged, creation_leaves_earlier_tags_unchanged, "
+          "later_parse_independent_of_history, copy_keeps_container. Reading/output: get_attribute_list_spec/_parsed, del_spec, "
+          "formatter_attributes_spec (permutation, key order, empty->None only under empty_attributes_are_booleans), "
+          "registry_empty_attribute_flags (whole generated registry), format_attribute_spec, quoting_delimits, attribute_string_shape. "
+          "Tie: differential runs of the real bs4 against the compiled model AND a direct Python oracle: exhaustive single separators, "
+          "generated whitespace patterns from the full isspace set, the element x attribute grid around the table (case variants incl. "
+          "non-ASCII, custom maps, None, XML-flavoured builder), the value-type grid through both containers / Tag.__setitem__ / new_tag "
+          "(nsprefix, NamespacedAttribute keys) / builder-less tags / copies, generated and untidy start tags with repeated attributes "
+          "under every on_duplicate_attribute setting, histories with in-place list changes under shared and fresh builders (object "
+          "identity, snapshots, search), every formatter's attribute output, and the accessors."),
     design="7/C17",
-    note=("HTMLAttributeDict is modelled in its documented form (identity test for False/None); the unrepaired membership test "
-          "`value in (False, None)` (element.py:280) drops 0/0.0 and is re-found as a violation until fixes/C17-html-attr-zero.diff is applied. "
-          "str(float) is taken from the runtime (carried in the value), str.lower() from a generated per-code-point table (no final-sigma rule)."),
+    note=("str(float) is taken from the runtime (carried in the value); entity substitution in attribute values is a parameter of the "
+          "output model (identity in the correspondence: formatter=None-like formatters, and named formatters on values that need no "
+          "substitution); str.lower() has no final-sigma rule in the model (U+03A3 not generated); which key object a dictionary retains "
+          "is not modelled (NamespacedAttribute keys in attrs arguments carry string values only); lxml is not installed, so the "
+          "XML-flavoured builder of the streams is html.parser's tokenizer with is_xml=True and the base (empty) table. Known finding "
+          "C17-copy-first-pass-huge-int (copy_self's discarded first pass raises for an int beyond the str() digit limit in a plain dict)."),
     technique="Lean 4 proofs over a code-mirror + differential correspondence through a line protocol + direct property oracle",
 )
 
@@ -110,7 +126,7 @@ def enc_val(v) -> str:
         return "s:" + tok(v)
     if isinstance(v, list):
         cls = 0 if type(v) is list else (1 if type(v) is lc[1] else 2 if type(v) is lc[2] else 9)
-        return f"l:{cls}:" + "/".join(tok(x) for x in v)
+        return f"l:{cls}:" + "/".join(tok(x) if isinstance(x, str) else "?" + type(x).__name__ for x in v)
     for i, (_, o) in enumerate(OTHERS):
         if v is o or (type(v) is type(o) and v == o):
             eqf = 0
@@ -283,10 +299,11 @@ def cb_upper(attrs, key, value):
     attrs[key] = value + "!"
 
 
-ONDUP = {"absent": None, "replace": "replace", "None": None, "ignore": "ignore", "accumulate": accumulate,
+ONDUP = {"absent": None, "replace": "replace", "None": None, "ignore": "ignore", "Replace": "Replace", "keep": "keep",
+         "accumulate": accumulate,
          "noop": cb_noop, "drop": cb_drop, "upper": cb_upper}
-ONDUP_MODEL = {"absent": "replace", "replace": "replace", "None": "replace", "ignore": "ignore",
-               "accumulate": "accumulate", "noop": "noop", "drop": "drop", "upper": "upper"}
+ONDUP_MODEL = {"absent": "absent", "replace": "replace", "None": "None", "ignore": "ignore", "Replace": "Replace",
+               "keep": "keep", "accumulate": "cb:accumulate", "noop": "cb:noop", "drop": "cb:drop", "upper": "cb:upper"}
 
 
 def builder_kwargs(cfg):
@@ -340,11 +357,8 @@ def make_soup(markup, cfg, shared=None):
 
 
 def cfg_model(cfg):
-    d = cfg.get("dcls", "absent")
-    m = enc_map(cfg["mva"])
-    if cfg.get("xml") and cfg["mva"] == "default":
-        m = enc_map([[k, sorted(v)] for k, v in sorted(live_table(cfg).items())])     # the base default (empty)
-    return m, ("plain" if d == "absent" else d), str(cfg.get("lcls", 0) or 1) + ("x" if cfg.get("xml") else "")
+    """the builder options as given (the model's mkBuilder resolves the defaults)"""
+    return (enc_map(cfg["mva"]), cfg.get("dcls", "absent"), str(cfg.get("lcls", 0) or 0) + ("x" if cfg.get("xml") else ""))
 
 
 def live_table(cfg):
@@ -452,6 +466,8 @@ def oracle(case) -> str:
                     continue
                 if pol in ("absent", "replace", "None"):
                     d[k] = v            # the last one survives, at the position of the first
+                elif isinstance(ONDUP[pol], str):
+                    return "raised TypeError"       # a string that is no policy cannot decide anything
                 else:
                     ONDUP[pol](d, k, v)
             else:
@@ -757,6 +773,7 @@ CUSTOM_MAPS = [
     [("*", []), ("a", [])],
     [("a", ["class"]), ("*", ["rel"])],
     [("", ["x"]), ("div", [""])],
+    [("straße", ["class"]), ("é", ["rel"]), ("ǆ", ["id"])],     # non-ASCII keys: str.lower, not casefold / ASCII lowering
 ]
 
 
@@ -764,7 +781,7 @@ def gen_cfg(r, allow_ondup=True):
     mva = r.choice(["default", "default", "default", None] + CUSTOM_MAPS)
     cfg = {"mva": mva, "dcls": r.choice(["absent", "absent", "plain", "html", "xml"]), "lcls": r.choice([0, 0, 1, 2])}
     if allow_ondup:
-        cfg["ondup"] = r.choice(["absent", "replace", "None", "ignore", "accumulate", "noop", "drop", "upper"])
+        cfg["ondup"] = r.choice(["absent", "replace", "None", "ignore", "accumulate", "noop", "drop", "upper", "Replace", "keep"])
     if r.random() < 0.15:
         cfg["xml"] = True      # XML-flavoured builder (is_xml, the empty base table unless a map is given)
     return cfg
@@ -1462,7 +1479,8 @@ def check_cases(ctx: Ctx, stream: str, cases: list):
         try:
             o, e = execute(c)
         except Exception as ex:      # an exception the property does not provide for is an observation, not a harness error
-            o, e = f"raised {type(ex).__name__}: {str(ex)[:80]}", []
+            o, e = f"raised {type(ex).__name__}", []
+            c["_exc"] = str(ex)[:120]
             if c["kind"] == "parse" and _spy_log:
                 c["_seen"] = _spy_log[0]
         obs.append(o)
@@ -1471,6 +1489,7 @@ def check_cases(ctx: Ctx, stream: str, cases: list):
     kept = []
     for c, o, e in zip(cases, obs, exts):
         c.pop("_human", None)
+        c.pop("_exc", None)
         if c.pop("_skip", False):
             ctx.count(f"{stream}:skipped-tokenizer-read-other-markup")
             continue
@@ -1537,15 +1556,27 @@ def run(ctx: Ctx):
         ctx.count("split:sep-is-ws" if c["s"][1].isspace() else "split:sep-not-ws")
     check_cases(ctx, "split-exhaustive", cases)
     r = ctx.rng("split")
-    cases = [{"kind": "split", "s": gen_ws_string(r)} for _ in range(ctx.n(20000, 100000))]
+    cases = [{"kind": "split", "s": gen_ws_string(r)} for _ in range(ctx.n(10000, 100000))]
     cases += [{"kind": "split", "s": s} for s in ["", " ", "\t\n", "a", " a", "a ", "a  b", " ", "a b", "a​b", "\x1c\x1d\x1e\x1f", "a\x85b"]]
     for c in cases:
         ctx.count(f"split:tokens={min(len(c['s'].split()), 4)}")
     check_cases(ctx, "split-generated", cases)
+    # the regex-engine reading of the model (findallNonWs, proved equal to splitWs) against the real findall
+    reps = Driver().ask(["c17 findall " + tok(c["s"]) for c in cases])
+    from bs4.element import nonwhitespace_re
+    for c, rep in zip(cases, reps):
+        got = nonwhitespace_re.findall(c["s"])
+        want = "/".join(tok(t) for t in got) if got else "-"
+        ctx.case(None)
+        if rep != want:
+            ctx.corr_disagreements += 1
+            ctx.violation("model (findallNonWs) and implementation disagree", case=c, expected=oracle(c), observed=want, model=rep,
+                          stream="findall-correspondence", no_failing_input=(want == oracle(c)))
 
     # ---- 2. which attributes are multi-valued: the grid in and around the table --------------------------------------
     cases = []
-    tag_pool = sorted({v for tg in tags for v in case_variants(tg)} | {"p", "div", "DIV", "tr", "span", "", "*", "tD ", " td", "tıd"})
+    tag_pool = sorted({v for tg in tags for v in case_variants(tg)} | {"p", "div", "DIV", "tr", "span", "", "*", "tD ", " td", "tıd",
+                                                                        "STRASSE", "strasse", "Straße", "STRAẞE", "É", "é", "Ǆ", "ǅ"})
     attr_pool = sorted(set(attrs) | {a.upper() for a in attrs} | {"id", "href", "style", "", "*", "class ", "Class", "acceptcharset"})
     for mva in ["default", None] + CUSTOM_MAPS:
         cfg = {"mva": mva}
@@ -1585,7 +1616,7 @@ def run(ctx: Ctx):
                                                                      [["p", "z"], ["s", "2"]], [list(kd), list(vd)]]})
     ctx.exhaustive_parts.append(f"dict: every key form x every grid value x 3 container classes, on an empty and on a populated dictionary ({len(cases)} cases)")
     r = ctx.rng("dict")
-    for _ in range(ctx.n(8000, 40000)):
+    for _ in range(ctx.n(5000, 40000)):
         cases.append({"kind": "dict", "cls": r.choice(["html", "xml", "plain"]),
                       "sets": [[list(r.choice(KEYS)), pick_value(r)] for _ in range(r.randint(2, 5))]})
     for c in cases:
@@ -1633,7 +1664,7 @@ def run(ctx: Ctx):
                               "acls": acls, "sets": [[["p", "class"], list(vd)]]})
     ctx.exhaustive_parts.append(f"tag: every grid value through builder-less Tag (html/xml), copy, new_tag under 4 dict classes x default/None ({len(cases)} cases)")
     r = ctx.rng("tag")
-    cases += [gen_tag_case(r) for _ in range(ctx.n(12000, 60000))]
+    cases += [gen_tag_case(r) for _ in range(ctx.n(8000, 60000))]
     for c in cases:
         ctx.count("tag:" + ("builder" if c["cfg"] is not None else c.get("via", "builderless")))
     check_cases(ctx, "tag-grid", cases)
@@ -1658,7 +1689,7 @@ def run(ctx: Ctx):
                     cases.append({"kind": "parse", "cfg": cfg, "name": "a", "attrs": al, "markup": markup_for("a", al)})
     ctx.exhaustive_parts.append(f"parse: every live table entry x every whitespace code point x default/None; 2-4 repeats x {len(ONDUP)} duplicate policies x 3 dict classes")
     r = ctx.rng("parse")
-    cases += [gen_parse_case(r) for _ in range(ctx.n(20000, 100000))]
+    cases += [gen_parse_case(r) for _ in range(ctx.n(12000, 100000))]
     for c in cases:
         ks = [k for k, _ in c["attrs"]]
         ctx.count("parse:dup" if len(set(ks)) < len(ks) else "parse:nodup")
@@ -1667,7 +1698,7 @@ def run(ctx: Ctx):
         ctx.count("parse:dcls=" + c["cfg"].get("dcls", "absent"))
     check_cases(ctx, "parse", cases)
     r = ctx.rng("parse-malformed")
-    cases = [gen_malformed_case(r) for _ in range(ctx.n(8000, 40000))]
+    cases = [gen_malformed_case(r) for _ in range(ctx.n(5000, 40000))]
     check_cases(ctx, "parse-malformed", cases)
     for c in cases:
         ks = [k for k, _ in c["attrs"]]
@@ -1676,7 +1707,7 @@ def run(ctx: Ctx):
 
     # ---- 5b. histories: identical raw values under one builder, lists changed in place ------------------------------
     r = ctx.rng("history")
-    cases = directed_history_cases() + [gen_history_case(r) for _ in range(ctx.n(2500, 12000))]
+    cases = directed_history_cases() + [gen_history_case(r) for _ in range(ctx.n(2000, 12000))]
     for c in cases:
         v = simulate_history(c)[0]
         ctx.count("history:reused-builder" if c["reuse"] else "history:fresh-builders")
@@ -1695,12 +1726,12 @@ def run(ctx: Ctx):
         for vd in LIGHT_GRID + [["s", x] for x in FMT_SAFE_STRS] + [["l", 1, ["it's", 'q"']], ["l", 0, ["x y", ""]]]:
             cases.append({"kind": "format", "fmt": fmt, "isxml": False, "name": "a", "items": [["k", list(vd)], ["Z", ["s", ""]], ["b", ["n"]]]})
     ctx.exhaustive_parts.append(f"format: every grid value x every formatter ({len(cases)} cases)")
-    cases += [gen_format_case(r) for _ in range(ctx.n(4000, 20000))]
+    cases += [gen_format_case(r) for _ in range(ctx.n(3000, 20000))]
     for c in cases:
         ctx.count("format:fmt=" + c["fmt"])
     check_cases(ctx, "format", cases)
     r = ctx.rng("access")
-    cases = [gen_access_case(r) for _ in range(ctx.n(4000, 20000))]
+    cases = [gen_access_case(r) for _ in range(ctx.n(3000, 20000))]
     check_cases(ctx, "access", cases)
 
     # ---- 6. str.lower table: the model's per-code-point lower against the runtime ------------------------------------
